@@ -28,7 +28,7 @@ from sfs_generator.parser_asm import parse_blocks_from_plain_instructions
 OPTION_GLOBALS = {"split_sto", "size_flag", "push_flag", "pop_flag", "revert_flag", "debug", "push0_enabled", "split_block",
                   "non_aliasing_disabled", "mem40_pattern", "extra_dep_info", "extra_opt_info", "context_info"}
 
-BLOCKS = os.environ.get("C12_BLOCKS", "PUSH 0 DUP2 ADD PUSH 3 MUL|DUP3 DUP3 MSTORE DUP2 MLOAD DUP1 DUP3 ADD|DUP2 DUP2 SSTORE DUP1 SLOAD PUSH 1 ADD|"
+BLOCKS = os.environ.get("C12_BLOCKS", "PUSH 3 PUSH 4 ADD SWAP1 POP|PUSH 0 DUP2 ADD PUSH 3 MUL|DUP3 DUP3 MSTORE DUP2 MLOAD DUP1 DUP3 ADD|DUP2 DUP2 SSTORE DUP1 SLOAD PUSH 1 ADD|"
                         "PUSH 20 DUP2 KECCAK256 DUP2 MLOAD LT ISZERO|CALLER PUSH ffffffffffffffffffffffffffffffffffffffff AND DUP2 EQ|"
                         "DUP1 DUP3 LOG1 PUSH 5 DUP2 MSTORE|PUSH 1 DUP2 SHL DUP3 MUL|DUP2 DUP2 SUB ISZERO ISZERO").split("|")
 
@@ -123,6 +123,17 @@ for modname, mod in (("gasol_optimization", G), ("ir_block", ir_block)):
             TARGETS.append((mod, g, "int"))
         elif isinstance(v, str):
             TARGETS.append((mod, g, "str"))
+# list-valued globals whose elements are strings (caches of expression keys, rule names, instruction names)
+LISTS = []
+for modname, mod in (("gasol_optimization", G), ("ir_block", ir_block)):
+    for g in _assigned_globals(os.path.join(REPO, "sfs_generator", modname + ".py")):
+        if g in OPTION_GLOBALS or not hasattr(mod, g):
+            continue
+        v = getattr(mod, g)
+        if isinstance(v, list) and all(isinstance(x, str) for x in v) and not g.startswith("opcodes"):
+            LISTS.append((mod, g, "list"))
+NL = len(LISTS)
+WHICH = int(os.environ.get("C12_WHICH", "0")) % max(1, NL)
 INTS = [t for t in TARGETS if t[2] == "int"]
 BOOLS = [t for t in TARGETS if t[2] == "bool"]
 STRS = [t for t in TARGETS if t[2] == "str"]
@@ -152,6 +163,27 @@ def independent(blk: int, ints: List[int], bools: List[bool], strs: List[str]) -
     post: _
     """
     return _havoc_and_run(blk, ints, bools, strs) == BASE[blk]
+
+
+def _havoc_lists_and_run(blk, which, items):
+    m, g, _ = LISTS[which]
+    saved = getattr(m, g)
+    try:
+        setattr(m, g, list(items))
+        return _run(blk)
+    finally:
+        setattr(m, g, saved)
+
+
+def independent_of_lists(blk: int, which: int, items: List[str]) -> bool:
+    """
+    one string-list global at a time holds an arbitrary list of at most two arbitrary strings
+    pre: 0 <= blk < NBLK
+    pre: which == WHICH
+    pre: len(items) <= 1
+    post: _
+    """
+    return _havoc_lists_and_run(blk, which, items) == BASE[blk]
 
 
 def independent_reach(blk: int, ints: List[int], bools: List[bool], strs: List[str]) -> bool:
